@@ -101,6 +101,10 @@ class Intervals:
         if c[0] == "and":
             for x in c[1]:
                 self._index(x)
+        elif c[0] == "un" and c[1] == "not" and c[2][0] not in ("cmp", "and", "or", "un", "c"):
+            self._cmp_index.setdefault(c[2], []).append(("==", C(0)))  # `not x` for a number: x == 0
+        elif c[0] not in ("cmp", "and", "or", "un", "c", "loop0"):
+            self._cmp_index.setdefault(c, []).append(("!=", C(0)))  # a number used as a condition: x != 0
         elif c[0] == "cmp" and c[1] in ("<", "<=", ">", ">=", "==", "!="):
             flip = {"<": ">", "<=": ">=", ">": "<", ">=": "<=", "==": "==", "!=": "!="}
             self._cmp_index.setdefault(c[2], []).append((c[1], c[3]))
@@ -290,8 +294,8 @@ class Intervals:
             from .expr import _norm_node
             neg = ("un", "not", e[1])
             neg = _norm_node(neg) or neg
-            a = Intervals(self.conds + [e[1]], self.params, self.cell_range, self.field_range).iv(e[2])
-            b = Intervals(self.conds + [neg], self.params, self.cell_range, self.field_range).iv(e[3])
+            a = type(self)(self.conds + [e[1]], self.params, self.cell_range, self.field_range).iv(e[2])
+            b = type(self)(self.conds + [neg], self.params, self.cell_range, self.field_range).iv(e[3])
             return join(a, b)
         if k == "it":
             return self.elem_iv(e[2])
